@@ -38,7 +38,16 @@ def v1_market(case, wallet):
     toks = {t["name"]: TokenInfo(t["name"], V1_TOKENS[t["name"]]) for t in case["tokens"]}
     actions = []
     broker = Broker(record_action_callback=actions.append)
-    m = GmxMarket(MarketInfo("gmx", MarketTypeEnum.gmx_v1), tokens=list(toks.values()))
+    reg = case.get("register", "once")
+    if reg == "later":  # tokens registered one by one after construction
+        m = GmxMarket(MarketInfo("gmx", MarketTypeEnum.gmx_v1), tokens=[])
+        for t in toks.values():
+            m.add_token(t)
+    else:
+        m = GmxMarket(MarketInfo("gmx", MarketTypeEnum.gmx_v1), tokens=list(toks.values()))
+    if reg == "twice":  # registering a token that is already known changes nothing
+        m.add_token(list(toks.values())[0])
+        m.add_token(list(toks.values()))
     broker.add_market(m)
     for n, a in wallet.items():
         broker.set_balance(toks[n], D(a))
